@@ -369,3 +369,68 @@ package iavl
 //@   ensures [nilonerr] err != nil ==> node == nil
 //@   ensures [keyed] err == nil ==> node != nil && node.nodeKey != nil && node.isLegacy
 //@   modifies *
+
+// ---------------------------------------------------------------- nodedb.go: version bookkeeping (C14)
+
+//@ func (*nodeDB).resetFirstVersion(ndb, version)
+//@   props C14
+//@   requires ndb != nil
+//@   ensures ndb.firstVersion == version
+//@   modifies ndb.firstVersion
+
+//@ func (*nodeDB).resetLatestVersion(ndb, version)
+//@   props C14
+//@   requires ndb != nil
+//@   ensures ndb.latestVersion == version
+//@   modifies ndb.latestVersion
+
+//@ func (*nodeDB).resetLegacyLatestVersion(ndb, version)
+//@   props C14 C16
+//@   requires ndb != nil
+//@   ensures ndb.legacyLatestVersion == version
+//@   modifies ndb.legacyLatestVersion
+
+// With the caches filled (the state after any successful load or commit) the
+// getters return the cached values and change nothing.
+//@ func (*nodeDB).getFirstVersion(ndb) (v, err)
+//@   props C14
+//@   requires ndb != nil && ndb.db != nil
+//@   ensures [cached] old(ndb.firstVersion) > 0 ==> err == nil && v == old(ndb.firstVersion) && ndb.firstVersion == old(ndb.firstVersion) && ndb.latestVersion == old(ndb.latestVersion) && ndb.legacyLatestVersion == old(ndb.legacyLatestVersion)
+//@   ensures [recorded] err == nil ==> ndb.firstVersion == v
+//@   modifies ndb.firstVersion, ndb.latestVersion, ndb.legacyLatestVersion
+
+//@ func (*nodeDB).getLatestVersion(ndb) (found, v, err)
+//@   props C14
+//@   requires ndb != nil && ndb.db != nil
+//@   ensures [cached] old(ndb.latestVersion) > 0 ==> err == nil && found && v == old(ndb.latestVersion) && ndb.latestVersion == old(ndb.latestVersion) && ndb.legacyLatestVersion == old(ndb.legacyLatestVersion)
+//@   ensures [recorded] err == nil && found ==> ndb.latestVersion == v && v > 0
+//@   modifies ndb.latestVersion, ndb.legacyLatestVersion
+
+//@ func (*nodeDB).getLegacyLatestVersion(ndb) (v, err)
+//@   props C14 C16
+//@   requires ndb != nil && ndb.db != nil
+//@   ensures [cached] old(ndb.legacyLatestVersion) != 0 ==> err == nil && v == old(ndb.legacyLatestVersion) && ndb.legacyLatestVersion == old(ndb.legacyLatestVersion)
+//@   modifies ndb.legacyLatestVersion
+
+// deleteVersionsTo on a store without legacy versions and with warm caches:
+// refuses to delete the latest version; otherwise the cached first version
+// becomes max(first, toVersion+1) — a stale request below the first version
+// changes nothing.
+//@ func (*nodeDB).deleteVersionsTo(ndb, toVersion) (err)
+//@   props C14 C04
+//@   requires ndb != nil && ndb.db != nil && ndb.logger != nil
+//@   requires ndb.legacyLatestVersion == 0 - 1 && ndb.firstVersion > 0 && ndb.latestVersion > 0 && toVersion < 9223372036854775807
+//@   ensures [latest] old(ndb.latestVersion) <= toVersion ==> err != nil
+//@   ensures [first] err == nil ==> ndb.firstVersion == ite(old(ndb.firstVersion) <= toVersion, toVersion + 1, old(ndb.firstVersion))
+//@   ensures [refused] old(ndb.latestVersion) <= toVersion ==> ndb.firstVersion == old(ndb.firstVersion) && ndb.latestVersion == old(ndb.latestVersion)
+//@   loop 2 invariant ndb.firstVersion == version && version >= first && (version == first || version <= toVersion + 1) && first == old(ndb.firstVersion)
+//@   modifies *
+
+//@ func (*nodeDB).deleteVersion(ndb, version, cache) (err)
+//@   summary
+//@ func (*nodeDB).deleteLegacyVersions(ndb, legacyLatestVersion) (err)
+//@   summary
+//@ func (*nodeDB).getFirstNonLegacyVersion(ndb) (v, err)
+//@   summary
+//@ func newRootkeyCache() (c)
+//@   summary
